@@ -34,8 +34,23 @@ def n_tracts(d):
 
 # (a) segment -------------------------------------------------------------
 
-def oracle_segment(d):
-    text = G.render(d)
+SEG_SPELLINGS = tuple(G.TR_SPELLINGS) + tuple(G.NODIR_SPELLINGS)
+SEG_CASE = st.fixed_dictionaries({"d": G.description(None, 3, 3, SEG_SPELLINGS), "noise": st.lists(st.integers(0, 400), max_size=3),
+                                  "noise_kind": st.sampled_from(["  ", "\t", " \t ", "   "])})
+
+
+def seg_text(c):
+    """Rendered description with a few single spaces widened (preprocessing collapses them again)."""
+    text = G.render(c["d"])
+    spaces = [i for i, ch in enumerate(text) if ch == " "]
+    for k in sorted({spaces[n % len(spaces)] for n in c["noise"]} if spaces else (), reverse=True):
+        text = text[:k] + c["noise_kind"] + text[k + 1:]
+    return text
+
+
+def oracle_segment(c):
+    d = c["d"]
+    text = seg_text(c)
     a = PLSSDesc(text)
     b = PLSSDesc(text, config="segment")
     fails = []
@@ -190,10 +205,11 @@ def lay_classes(d):
 
 
 SUBS = [
-    Sub("segment", oracle_segment, strategy=lambda tier: G.description(None), validate=G.validate, nontrivial=lambda d: n_tracts(d) >= 2,
-        classes=lay_classes, render=lambda d: {"text": G.render(d), "layout": d["layout"]},
+    Sub("segment", oracle_segment, strategy=lambda tier: SEG_CASE, validate=lambda c: G.validate(c["d"]), nontrivial=lambda c: n_tracts(c["d"]) >= 2,
+        classes=lambda c: lay_classes(c["d"]) + (["nodir_twprge"] if any(g["tr_sp"] in G.NODIR_SPELLINGS for g in c["d"]["groups"]) else []) + (["whitespace_noise"] if c["noise"] else []),
+        render=lambda c: {"text": seg_text(c), "layout": c["d"]["layout"]},
         n={"quick": 600, "thorough": 8000}, shards={"quick": 6, "thorough": 16},
-        essential=tuple(f"layout={x}" for x in G.LAYOUTS) + ("groups=2", "groups=3")),
+        essential=tuple(f"layout={x}" for x in G.LAYOUTS) + ("groups=2", "groups=3", "nodir_twprge", "whitespace_noise")),
     Sub("colons_present", oracle_colons, strategy=lambda tier: SECFIRST, validate=G.validate, nontrivial=lambda d: n_tracts(d) >= 2,
         classes=lay_classes, render=lambda d: {"text": G.render(d), "layout": d["layout"]},
         n={"quick": 400, "thorough": 6000}, shards={"quick": 4, "thorough": 16}),
